@@ -102,12 +102,12 @@ func (mgr *ConnManager) Close() error {
 	var errs error
 	conns := mgr.Conns()
 	for _, conn := range conns {
-		err := conn.Close()
-		if err == nil {
-			if err := mgr.RemoveConn(conn); err != nil {
-				errs = errors.Join(errs, err)
-			}
-		} else {
+		// A connection whose peer is already gone may fail to close cleanly (a TLS connection cannot
+		// send its close_notify alert any more); it is closed and removed from the manager all the same.
+		if err := conn.Close(); err != nil {
+			errs = errors.Join(errs, err)
+		}
+		if err := mgr.RemoveConn(conn); err != nil {
 			errs = errors.Join(errs, err)
 		}
 	}
